@@ -134,6 +134,7 @@ def gen(rng, tier):
                 d['gpus_per_rank'] = rng.choice([0.5, 0.5, 0.25])
     sc['c09'] = True
     sc['preempt'] = 0.0
+    sc['stale_files'] = rng.random() < (0.5 if lay['nodes'] > 42 else 0.15)
     return sc
 
 
@@ -326,6 +327,7 @@ def install_spy(sim, st):
         if 'agent_executing' in uid:
             comp = c
     rm = comp._rm
+    sc_ = st.get('sc') or sim.data.get('c09_sc') or {}
     st['lm_records'] = list()
     import radical.pilot.agent as rpa
     import radical.utils as ru
@@ -348,6 +350,20 @@ def install_spy(sim, st):
                    'cores_per_rank': task['description']['cores_per_rank'],
                    'cmd': None, 'files': {}, 'exc': None, 'fresh': None,
                    'fresh_exc': None}
+            if sc_.get('stale_files'):
+                # an earlier command generation for the same uid and sandbox
+                # (restarted session, application defined sandbox) left its
+                # files behind: they name other nodes
+                sbox = task.get('task_sandbox_path')
+                if sbox and os.path.isdir(sbox):
+                    for ext in ('nodes', 'hosts', 'rf', 'hf', 'rs'):
+                        try:
+                            with open('%s/%s.%s' % (sbox, task['uid'], ext),
+                                      'w') as f:
+                                f.write('stale001,stale002\n')
+                        except OSError:
+                            pass
+                    sim.fault('stale_launch_files')
             try:
                 cmd = _real(task, exec_path)
                 rec['cmd'] = cmd if isinstance(cmd, str) else ' '.join(cmd)
@@ -503,7 +519,10 @@ def oracle(sim, sc, st):
 
 
 def run(seed, sc, trace=None, tier='quick'):
-    S.HOOKS['after_start'] = install_spy if sc.get('c09') else None
+    def _spy(sim, st):
+        sim.data['c09_sc'] = sc
+        return install_spy(sim, st)
+    S.HOOKS['after_start'] = _spy if sc.get('c09') else None
     S.HOOKS['final'] = oracle
     try:
         res = S.run(seed, sc, trace, tier)
